@@ -35,6 +35,8 @@ fn c15d_aligned_memory_layout() {
     kani::assume(n >= 1 && n <= (1usize << 32));
     let m = AlignedMemoryI32::new(n);
     assert!(m.len() >= n && m.layout.size() >= n * 4);
+    // the slice handed out by deref() must not be longer than the allocation behind it
+    assert!(m.layout.size() == m.len() * 4 && m.layout.align() == 64, "C15-D: table slice longer than (or laid out differently from) its allocation");
     kani::cover!(n == (1usize << 32), "largest");
     core::mem::forget(m);
 }
